@@ -3,6 +3,8 @@
 // with callbacks, argument lists and processIf predicates of several shapes (spec/HetGen.tla explains the shape tables; they are
 // re-computed here with the library's own type traits and static_assert-ed).  Reads HetGen cover scripts, records NDJSON for TraceHet.tla.
 //   W_KIND 0 HeterCallbackList | 1 HeterEventDispatcher | 2 HeterEventQueue        W_THREADING 0/1/2        W_FILL storage pattern
+//   W_HFILTER 1 (W_KIND 1 only): Policies::Mixins = MixinList<MixinHeterFilter>, filters with scripted behaviour (only exactly typed argument lists
+//   can be dispatched then: the filter list is looked up by the lvalue argument types)
 #include "common.h"
 #include "fault.h"
 #include <eventpp/hetercallbacklist.h>
@@ -10,6 +12,7 @@
 #include <eventpp/hetereventqueue.h>
 #include <eventpp/utilities/counterremover.h>
 #include <eventpp/utilities/conditionalremover.h>
+#include <eventpp/mixins/mixinheterfilter.h>
 #include <string>
 #include <new>
 
@@ -21,6 +24,9 @@
 #endif
 #ifndef W_FILL
 #define W_FILL 0xA5
+#endif
+#ifndef W_HFILTER
+#define W_HFILTER 0
 #endif
 using namespace vf;
 
@@ -85,8 +91,25 @@ struct S5 { bool operator() (int v, const TS & s) const { return asked(5, v, s.o
 struct S6 { bool operator() (int v) const { return asked(2, v, true); }
             bool operator() (int v, const TS & s) const { return asked(5, v, s.ok() && s.v == v); } };
 
+// ---- filters of a heterogeneous dispatcher: behaviour 0 passes, 1 passes and adds 10 to an int argument of prototype 2, 2 rejects odd values
+static bool onHFilter(int id, int behaviour, int proto, int value, int * mut)
+{
+	const bool verdict = ! (behaviour == 2 && value % 2 == 1);
+	evx("fq", proto, id, behaviour, verdict ? 1 : 0, value);
+	if(behaviour == 1 && mut && proto == 2) *mut += 10;
+	return verdict;
+}
+struct F1 { int id, b; bool operator() () const { return onHFilter(id, b, 1, 0, 0); } };
+struct F2 { int id, b; bool operator() (int & v) const { return onHFilter(id, b, 2, v, &v); } };
+struct F3 { int id, b; bool operator() (const TS & s) const { return onHFilter(id, b, 3, s.ok() ? s.v : -1, 0); } };
+struct F4 { int id, b; bool operator() (const Big & x) const { return onHFilter(id, b, 4, x.ok() ? x.v : -1, 0); } };
+struct F5 { int id, b; bool operator() (int & v, const TS & s) const { return onHFilter(id, b, 5, (s.ok() && s.v == v) ? v : -1, 0); } };
+
 struct Pol
 {
+#if W_HFILTER == 1
+	using Mixins = eventpp::MixinList<eventpp::MixinHeterFilter>;
+#endif
 #if W_THREADING == 0
 	using Threading = eventpp::SingleThreading;
 #elif W_THREADING == 1
@@ -201,6 +224,23 @@ template <typename ...A> static void call(A && ...a)
 	obj->dispatch(1, std::forward<A>(a)...);
 #endif
 }
+#if W_HFILTER == 1
+static std::vector<Obj::FilterHandle> FH;
+static void addFilter(int proto, int behaviour)
+{
+	int id = (int)FH.size() + 1;
+	Obj::FilterHandle h;
+	switch(proto) {
+	case 1: h = obj->appendFilter(F1{ id, behaviour }); break;
+	case 2: h = obj->appendFilter(F2{ id, behaviour }); break;
+	case 3: h = obj->appendFilter(F3{ id, behaviour }); break;
+	case 4: h = obj->appendFilter(F4{ id, behaviour }); break;
+	default: h = obj->appendFilter(F5{ id, behaviour }); break;
+	}
+	FH.push_back(h);
+	evx("af", 0, proto, h.index + 1, id, behaviour);
+}
+#endif
 static void invoke(int shape)
 {
 	int uid = ++g_uid;
@@ -208,11 +248,14 @@ static void invoke(int shape)
 	switch(shape) {
 	case 1: call(); break;
 	case 2: { int v = uid; call(v); } break;
+#if W_HFILTER == 0
 	case 3: { long v = uid; call(v); } break;
+	case 7: { char c = (char)uid; call(c); } break;
+#endif
 	case 4: { const TS s(uid); call(s); } break;
 	case 5: { const Big b(uid); call(b); } break;
 	case 6: { int v = uid; const TS s(uid); call(v, s); } break;
-	default: { char c = (char)uid; call(c); } break;
+	default: std::fprintf(stderr, "argument shape %d cannot be dispatched in this world\n", shape); std::exit(2);
 	}
 	evx("ie", 0, 0, 0, 0, uid);
 }
@@ -273,6 +316,10 @@ static void step(const Op & op)
 	else if(k == "ik") addConditional("ik", 2, op.b);
 	else if(k == "rl") { bool r = removeHandle(op.a); evx("rl", 0, op.a, 0, r ? 1 : 0, 0); }
 	else if(k == "iv") invoke(op.a);
+#if W_HFILTER == 1
+	else if(k == "af") addFilter(op.a, op.b);
+	else if(k == "rf") { bool r = (op.a >= 1 && op.a <= (int)FH.size()) ? obj->removeFilter(FH[op.a - 1]) : false; evx("rf", 0, op.a, 0, r ? 1 : 0, 0); }
+#endif
 #if W_KIND == 2
 	else if(k == "nq") enqueue(op.a);
 	else if(k == "pa") process(1, 0);
@@ -294,6 +341,9 @@ static void epilogue()
 	for(int s : shapes) invoke(s);
 	obj->~Obj(); obj = 0;
 	H.clear();
+#if W_HFILTER == 1
+	FH.clear();
+#endif
 	std::fprintf(g_out, "{\"e\":\"rs\",\"o\":0,\"a\":0,\"b\":0,\"r\":0,\"u\":0,\"lv\":%ld,\"pv\":%ld,\"n\":%ld}\n", g_live, g_livePayload, g_script);
 }
 
